@@ -180,9 +180,9 @@ func main() {
 		return
 	}
 	outPath := os.Args[1]
-	n := 60
+	n := 150
 	if lib.Tier() == "thorough" {
-		n = 600
+		n = 1200
 	}
 	if len(os.Args) > 2 {
 		n, _ = strconv.Atoi(os.Args[2])
